@@ -26,6 +26,9 @@ func runC06(p *core.Program, r *core.Report) {
 	c13R1(p, sub)
 	r.Floor("R2", 3)
 	for _, o := range sub.Obls {
+		if o.Rule != "C13.R1" {
+			continue
+		}
 		if o.Status == core.Discharged {
 			r.OK("R2", nil, o.Func+": "+o.Construct, token.NoPos, o.How)
 		} else {
